@@ -574,3 +574,84 @@ def fill_shape(shape, rnd, counter=None):
         counter[0] += 1
         out['%s%d' % (trim_key(rkey(rnd), 100, 240), counter[0])] = kid
     return out
+
+
+# ---- equal twins -------------------------------------------------------------
+# Values that compare (and hash) equal to a given value but must be encoded
+# differently: 1 == 1.0 == True == Decimal(1); Decimal('11.5') ==
+# Decimal('11.50'); 0.0 == -0.0 == 0; the two readings (fold) of an ambiguous
+# wall-clock time; one instant in two zones.  A memo, an lru_cache without
+# typed=True, a "same as last time" shortcut or a dict keyed by the value
+# confuses them; they are encoded around the value under test.
+
+def twin_leaf(v, rnd):
+    """A value equal to the leaf `v` with another wire encoding, or
+    NotImplemented."""
+    try:
+        if isinstance(v, bool):
+            return rnd.choice([int(v), float(v), D(int(v))])
+        if isinstance(v, int):
+            out = [D(v)]
+            if abs(v) < 2 ** 53:
+                out.append(float(v))
+            if v in (0, 1):
+                out.append(bool(v))
+            return rnd.choice(out)
+        if isinstance(v, float):
+            if v != v or v in (float('inf'), float('-inf')):
+                return NotImplemented
+            out = [D(v)]
+            if v.is_integer():
+                out.append(int(v))
+            if v == 0:
+                out += [-v, 0]
+            return rnd.choice(out)
+        if isinstance(v, D):
+            if not v.is_finite():
+                return NotImplemented
+            sign, digits, exp = v.as_tuple()
+            out = [D((sign, digits + (0,), exp - 1))]
+            if digits[-1:] == (0,) and len(digits) > 1:
+                out.append(D((sign, digits[:-1], exp + 1)))
+            if v == v.to_integral_value():
+                out.append(int(v))
+            return rnd.choice(out)
+        if isinstance(v, datetime.datetime):
+            if v.tzinfo is None:
+                return v.replace(fold=1 - v.fold)
+            if rnd.random() < 0.3:
+                return v.replace(fold=1 - v.fold)
+            off = rnd.choice([o for o in OFFSETS
+                              if datetime.timedelta(minutes=o)
+                              != v.utcoffset()])
+            return v.astimezone(datetime.timezone(
+                datetime.timedelta(minutes=off)))
+    except (OverflowError, ValueError, ArithmeticError):
+        pass
+    return NotImplemented
+
+
+def twin(v, rnd, p=0.7):
+    """`v` with leaves replaced (probability p each) by equal twins; the
+    container structure and the keys are kept, so twin(v) == v wherever the
+    leaf kinds allow.  Returns a new object."""
+    if isinstance(v, dict):
+        return {k: twin(x, rnd, p) for k, x in v.items()}
+    if isinstance(v, list):
+        return [twin(x, rnd, p) for x in v]
+    if rnd.random() < p:
+        t = twin_leaf(v, rnd)
+        if t is not NotImplemented:
+            return t
+    return v
+
+
+def churn_scalars(n, salt):
+    """n distinct small scalars (ints, strings, floats) to push through an
+    encoder: whatever bounded memo it keeps is evicted."""
+    out = []
+    for i in range(n):
+        k = i % 3
+        out.append(salt * 100003 + i if k == 0 else 'churn-%d-%d' % (salt, i)
+                   if k == 1 else salt + i + 0.5)
+    return out
